@@ -6,6 +6,8 @@
 import Bridge.Abs
 import PtaProofs.Lemmas.Expansion
 import PtaProofs.Lemmas.AnythingDedup
+import PtaProofs.Lemmas.NoMatchExact
+import PtaProofs.Lemmas.BatchThree
 namespace Pta.C11
 open Pta
 
@@ -37,6 +39,44 @@ theorem regex_no_match (mt : Str → Str → Bool) (g : PGraph Str) (s o n dir e
     ∃ k, (assertApplies mt (mkRule s o n dir exc [.regex p] objs) g).2 = .err k :=
   Pta.regex_no_match_lemma mt g s o n dir exc p objs h
 
+/-- … and on a complete and consistent rule (a verb, a direction, subjects and objects given; no contradictory verbs; not the
+    `anything` alias; no subject removed by an earlier alias conversion is absent) the error is exactly the no-match error —
+    the regex may stand in subject OR object position, accompanied by any other filters (names, parents, further regexes,
+    names absent from the graph included) -/
+theorem regex_no_match_exact (mt : Str → Str → Bool) (g : PGraph Str) (st : RuleState) (ss os : List Filter)
+    (hany : st.cfg.anything = false) (hcm : configMissing st.cfg = false) (hda : droppedAbsent g st.cfg = false)
+    (hinc : st.cfg.behavior.inconsistent = false)
+    (hs : st.cfg.subjects = some ss) (ho : st.cfg.objects = some os)
+    (h : ∃ f ∈ ss ++ os, f.isRegex = true ∧ ∀ m ∈ g.nodes, mt f.id m = false) :
+    (assertApplies mt st g).2 = .err .impossibleMatch :=
+  Pta.regex_no_match_exact_lemma mt g st ss os hany hcm hda hinc hs ho h
+
+/-- subject position, finished rule of any of the 12 shapes -/
+theorem regex_no_match_subject (mt : Str → Str → Bool) (g : PGraph Str) (s o n dir exc : Bool) (p : Str) (subs objs : List Filter)
+    (hverb : (s || o || n) = true) (hobj : objs ≠ []) (hinc : (Behavior.mk s o n exc).inconsistent = false)
+    (hp : .regex p ∈ subs) (h : ∀ m ∈ g.nodes, mt p m = false) :
+    (assertApplies mt (mkRule s o n dir exc subs objs) g).2 = .err .impossibleMatch := by
+  obtain ⟨h1, h2, h3⟩ := Pta.mkRule_complete g s o n dir exc subs objs hverb (List.ne_nil_of_mem hp) hobj
+  exact regex_no_match_exact mt g _ subs objs h1 h2 h3 hinc rfl rfl ⟨.regex p, List.mem_append_left _ hp, rfl, h⟩
+
+/-- object position -/
+theorem regex_no_match_object (mt : Str → Str → Bool) (g : PGraph Str) (s o n dir exc : Bool) (p : Str) (subs objs : List Filter)
+    (hverb : (s || o || n) = true) (hsub : subs ≠ []) (hinc : (Behavior.mk s o n exc).inconsistent = false)
+    (hp : .regex p ∈ objs) (h : ∀ m ∈ g.nodes, mt p m = false) :
+    (assertApplies mt (mkRule s o n dir exc subs objs) g).2 = .err .impossibleMatch := by
+  obtain ⟨h1, h2, h3⟩ := Pta.mkRule_complete g s o n dir exc subs objs hverb hsub (List.ne_nil_of_mem hp)
+  exact regex_no_match_exact mt g _ subs objs h1 h2 h3 hinc rfl rfl ⟨.regex p, List.mem_append_right _ hp, rfl, h⟩
+
+/-! non-vacuity: `should only … except` with an absent name next to the regex, both positions -/
+example : (true || false || false) = true ∧ (Behavior.mk false true false true).inconsistent = false ∧
+    (Filter.regex "x.*".toList) ∈ [Filter.name "zz".toList, .regex "x.*".toList] ∧
+    ∀ m ∈ (buildGraph ["p".toList, "q".toList] [] none).nodes, (fun _ _ => false) "x.*".toList m = false := by decide
+example : (assertApplies (fun _ _ => false) (mkRule false true false true true [.name "zz".toList, .regex "x.*".toList] [.name "q".toList])
+    (buildGraph ["p".toList, "q".toList] [] none)).2 = .err .impossibleMatch := by decide
+/-- the completeness hypotheses are needed: without a verb the configuration error comes first -/
+example : (assertApplies (fun _ _ => false) (mkRule false false false true false [.regex "x.*".toList] [.name "q".toList])
+    (buildGraph ["p".toList, "q".toList] [] none)).2 = .err .improperlyConfigured := by decide
+
 /-- the deprecated partial-name form is its regex translation -/
 theorem partial_name (glob : Str → Str) (st : RuleState) (p : Str) :
     st.step glob (.haveNameContaining [p]) = st.step glob (.haveNameMatching (glob p)) := rfl
@@ -54,6 +94,84 @@ theorem batch_objects (mt : Str → Str → Bool) (g : PGraph Str) (neg dir : Bo
     verdictOf mt g (mkRule (!neg) false neg dir false subs objs) = .pass ↔
     ∀ y ∈ objs, verdictOf mt g (mkRule (!neg) false neg dir false subs [y]) = .pass :=
   Pta.batch_objects_lemma mt g neg dir subs objs hne
+
+/-! ### three-valued batching (audit finding F13)
+
+`batch_subjects` / `batch_objects` speak about `= .pass` only.  The theorems below settle the two other outcomes.  The batch does
+NOT behave like "evaluate the members in list order and stop at the first that raises": `RuleMatcher.match` converts the
+regexes of ALL subjects and objects before any module is looked up, so
+* a configuration error (`ImproperlyConfigured`, `RuleInconsistency`) is raised by the batch iff it is raised by every member;
+* the batch raises the no-match error iff SOME member raises it (wherever that member stands in the list);
+* the batch raises a lookup error iff some member raises a lookup error and NO member raises the no-match error;
+* the batch raises iff some member raises; it fails iff no member raises and some member fails.
+(When one member raises a lookup error and another fails, the batch raises the lookup error.) -/
+
+/-- several subjects, all 12 shapes: the error the batch raises -/
+theorem batch_subjects_err (mt : Str → Str → Bool) (g : PGraph Str) (s o n dir exc : Bool) (subs objs : List Filter)
+    (hne : subs ≠ []) (k : ErrKind) :
+    verdictOf mt g (mkRule s o n dir exc subs objs) = .err k ↔
+      (∃ x ∈ subs, verdictOf mt g (mkRule s o n dir exc [x] objs) = .err k) ∧
+      (k = .lookupError → ∀ x ∈ subs, verdictOf mt g (mkRule s o n dir exc [x] objs) ≠ .err .impossibleMatch) :=
+  Pta.Batch.batch_subjects_err_lemma mt g s o n dir exc subs objs hne k
+
+/-- the batch raises iff some member raises -/
+theorem batch_subjects_raises (mt : Str → Str → Bool) (g : PGraph Str) (s o n dir exc : Bool) (subs objs : List Filter)
+    (hne : subs ≠ []) :
+    (∃ k, verdictOf mt g (mkRule s o n dir exc subs objs) = .err k) ↔
+      ∃ x ∈ subs, ∃ k, verdictOf mt g (mkRule s o n dir exc [x] objs) = .err k :=
+  (Pta.Batch.batch_subjects_three_lemma mt g s o n dir exc subs objs hne).1
+
+/-- the batch fails iff no member raises and some member fails -/
+theorem batch_subjects_fail (mt : Str → Str → Bool) (g : PGraph Str) (s o n dir exc : Bool) (subs objs : List Filter)
+    (hne : subs ≠ []) :
+    verdictOf mt g (mkRule s o n dir exc subs objs) = .fail ↔
+      (∀ x ∈ subs, ∀ k, verdictOf mt g (mkRule s o n dir exc [x] objs) ≠ .err k) ∧
+      ∃ x ∈ subs, verdictOf mt g (mkRule s o n dir exc [x] objs) = .fail :=
+  (Pta.Batch.batch_subjects_three_lemma mt g s o n dir exc subs objs hne).2
+
+/-- several objects, plain should / should_not: the error the batch raises -/
+theorem batch_objects_err (mt : Str → Str → Bool) (g : PGraph Str) (neg dir : Bool) (subs objs : List Filter)
+    (hne : objs ≠ []) (k : ErrKind) :
+    verdictOf mt g (mkRule (!neg) false neg dir false subs objs) = .err k ↔
+      (∃ y ∈ objs, verdictOf mt g (mkRule (!neg) false neg dir false subs [y]) = .err k) ∧
+      (k = .lookupError → ∀ y ∈ objs, verdictOf mt g (mkRule (!neg) false neg dir false subs [y]) ≠ .err .impossibleMatch) :=
+  Pta.Batch.batch_objects_err_lemma mt g neg dir subs objs hne k
+
+theorem batch_objects_raises (mt : Str → Str → Bool) (g : PGraph Str) (neg dir : Bool) (subs objs : List Filter)
+    (hne : objs ≠ []) :
+    (∃ k, verdictOf mt g (mkRule (!neg) false neg dir false subs objs) = .err k) ↔
+      ∃ y ∈ objs, ∃ k, verdictOf mt g (mkRule (!neg) false neg dir false subs [y]) = .err k :=
+  (Pta.Batch.batch_objects_three_lemma mt g neg dir subs objs hne).1
+
+theorem batch_objects_fail (mt : Str → Str → Bool) (g : PGraph Str) (neg dir : Bool) (subs objs : List Filter)
+    (hne : objs ≠ []) :
+    verdictOf mt g (mkRule (!neg) false neg dir false subs objs) = .fail ↔
+      (∀ y ∈ objs, ∀ k, verdictOf mt g (mkRule (!neg) false neg dir false subs [y]) ≠ .err k) ∧
+      ∃ y ∈ objs, verdictOf mt g (mkRule (!neg) false neg dir false subs [y]) = .fail :=
+  (Pta.Batch.batch_objects_three_lemma mt g neg dir subs objs hne).2
+
+/-! non-vacuity and the order question, on the graph `p → q` with modules `p`, `q`, `r`: as single subjects of
+    `should import q`, `p` passes, `r` fails, the absent name `zz` raises the lookup error and the regex `x.*` (no match)
+    raises the no-match error -/
+def bG : PGraph Str := buildGraph ["p".toList, "q".toList, "r".toList] [absImport "p".toList "q".toList] none
+def bRule (subs : List Filter) : RuleState := mkRule true false false true false subs [.name "q".toList]
+def bNone : Str → Str → Bool := fun _ _ => false
+example : verdictOf bNone bG (bRule [.name "p".toList]) = .pass ∧ verdictOf bNone bG (bRule [.name "r".toList]) = .fail ∧
+    verdictOf bNone bG (bRule [.name "zz".toList]) = .err .lookupError ∧
+    verdictOf bNone bG (bRule [.regex "x.*".toList]) = .err .impossibleMatch := by decide
+/-- a failing member in front of a raising one: the batch raises -/
+example : verdictOf bNone bG (bRule [.name "r".toList, .name "zz".toList]) = .err .lookupError := by decide
+/-- a member raising the lookup error in front of a member raising the no-match error: the batch raises the no-match error
+    (not "the error of the first member that raises") -/
+example : verdictOf bNone bG (bRule [.name "zz".toList, .regex "x.*".toList]) = .err .impossibleMatch := by decide
+example : verdictOf bNone bG (bRule [.name "p".toList, .name "r".toList]) = .fail := by decide
+/-- objects: `p should import [q, zz, x.*]` -/
+example : verdictOf bNone bG (mkRule true false false true false [.name "p".toList]
+    [.name "q".toList, .name "zz".toList, .regex "x.*".toList]) = .err .impossibleMatch ∧
+    verdictOf bNone bG (mkRule true false false true false [.name "p".toList] [.name "r".toList, .name "zz".toList]) =
+      .err .lookupError ∧
+    verdictOf bNone bG (mkRule true false false true false [.name "p".toList] [.name "q".toList, .name "r".toList]) = .fail := by
+  decide
 
 /-! ### the `anything` aliases without the de-duplication hypothesis (verdict class)
 
